@@ -344,21 +344,7 @@ CO_ERR COSdoDownloadExpedited(CO_SDO *srv)
         /* start writing at the begin of the object */
         err    = COObjWrBufStart(srv->Obj, srv->Node, (uint8_t *)&data, size);
         if (err != CO_ERR_NONE) {
-            if (srv->Abort > 0) {
-                COSdoAbort(srv, srv->Abort);
-            } else if (err == CO_ERR_OBJ_RANGE) {
-                COSdoAbort(srv, CO_SDO_ERR_RANGE);
-            } else if (err == CO_ERR_OBJ_MAP_TYPE) {
-                COSdoAbort(srv, CO_SDO_ERR_OBJ_MAP);
-            } else if (err == CO_ERR_OBJ_ACC) {
-                COSdoAbort(srv, CO_SDO_ERR_TOS);
-            } else if (err == CO_ERR_OBJ_MAP_LEN) {
-                COSdoAbort(srv, CO_SDO_ERR_OBJ_MAP_N);
-            } else if (err == CO_ERR_OBJ_INCOMPATIBLE) {
-                COSdoAbort(srv, CO_SDO_ERR_PARA_INCOMP);
-            } else {
-                COSdoAbort(srv, CO_SDO_ERR_TOS);
-            }
+            COSdoAbortWrite(srv, err, CO_SDO_ERR_TOS);
         } else {
             CO_SET_BYTE(srv->Frm, 0x60, 0);
             CO_SET_LONG(srv->Frm,    0, 4);
@@ -370,6 +356,25 @@ CO_ERR COSdoDownloadExpedited(CO_SDO *srv)
         COSdoAbort(srv, CO_SDO_ERR_LEN);
     }
     return (result);
+}
+
+void COSdoAbortWrite(CO_SDO *srv, CO_ERR err, uint32_t other)
+{
+    if (srv->Abort > 0) {
+        COSdoAbort(srv, srv->Abort);
+    } else if (err == CO_ERR_OBJ_RANGE) {
+        COSdoAbort(srv, CO_SDO_ERR_RANGE);
+    } else if (err == CO_ERR_OBJ_MAP_TYPE) {
+        COSdoAbort(srv, CO_SDO_ERR_OBJ_MAP);
+    } else if (err == CO_ERR_OBJ_ACC) {
+        COSdoAbort(srv, CO_SDO_ERR_TOS);
+    } else if (err == CO_ERR_OBJ_MAP_LEN) {
+        COSdoAbort(srv, CO_SDO_ERR_OBJ_MAP_N);
+    } else if (err == CO_ERR_OBJ_INCOMPATIBLE) {
+        COSdoAbort(srv, CO_SDO_ERR_PARA_INCOMP);
+    } else {
+        COSdoAbort(srv, other);
+    }
 }
 
 void COSdoAbort(CO_SDO *srv, uint32_t err)
@@ -566,7 +571,7 @@ CO_ERR COSdoDownloadSegmented(CO_SDO *srv)
     if ((cmd & 0x01) == 0x01) {
         if (result != CO_ERR_NONE) {
             srv->Node->Error = CO_ERR_SDO_WRITE;
-            COSdoAbort(srv, CO_SDO_ERR_HW_ACCESS);
+            COSdoAbortWrite(srv, result, CO_SDO_ERR_HW_ACCESS);
             result = CO_ERR_SDO_ABORT;
         }
         srv->Seg.Size = 0;
@@ -668,7 +673,7 @@ CO_ERR COSdoEndDownloadBlock(CO_SDO *srv)
             result = COObjWrBufCont(srv->Obj, srv->Node, srv->Buf.Start, len);
             if (result != CO_ERR_NONE) {
                 srv->Node->Error = CO_ERR_SDO_WRITE;
-                COSdoAbort(srv, CO_SDO_ERR_TOS);
+                COSdoAbortWrite(srv, result, CO_SDO_ERR_TOS);
                 result = CO_ERR_SDO_ABORT;
             } else {
                 CO_SET_BYTE(srv->Frm, 0xA1, 0);
